@@ -18,7 +18,7 @@ Cut from the CURRENT tree and transliterated each run (tools/translit.py + the p
 What is NOT taken from the code (thin plumbing shim = assumed contract, listed in the evidence): cache accessors get*/upd* (a per-node store),
 fromU/toU/array-slot reference views (rewritten to explicit reads/writes by logged rules), constructors / copy assignment of the small classes,
 Mat<2,dof,Vec3> (HType) row/column/transposed products (mobilizerlib.HMat), children/parent/level arrays."""
-import os, re, z3, fractions, functools
+import os, re, z3, fractions, functools, time
 from vlib import *
 import extract as X
 from extract import *
@@ -133,6 +133,18 @@ class DPlumb(M.Plumb):
             b = b.replace(m.group(0), "\x00DECL%s\x00" % nm, 1)
             b = re.sub(r"(?<![\w.>])" + nm + r"\s*=(?!=)\s*([^;]*);", nm + r".assign(\1);", b)
             b = b.replace("\x00DECL%s\x00" % nm, m.group(0))
+        # (2b) HType& reference parameters and local HType variables: whole-object and row writes
+        decls = {}
+        for m in list(re.finditer(r"\bHType\s+(\w+)\s*;", b)):
+            self.hit("local HType declaration -> HType(dof)", m.group(0))
+            decls["\x00HT%s\x00" % m.group(1)] = "HType %s = HType(self.dof);" % m.group(1)
+            b = b.replace(m.group(0), "\x00HT%s\x00" % m.group(1), 1)
+            refparams = tuple(refparams) + (m.group(1),)
+        for nm in refparams:
+            b = self.sub("HType row write %s[i] = e -> SETROW(%s,i,e)" % (nm, nm), r"(?<![\w.>])" + nm + r"\[(\d)\]\s*=(?!=)\s*([^;]*);", "SETROW(" + nm + r", \1, \2);", b)
+            b = self.sub("reference-parameter write %s = e -> %s.assign(e)" % (nm, nm), r"(?<![\w.>])" + nm + r"\s*=(?!=)\s*([^;]*);", nm + r".assign(\1);", b)
+        for k_, v_ in decls.items():
+            b = b.replace(k_, v_)
         # (3) writes through views / accessors returning references
         b = self.sub("view write toU(x) = e -> SETU(self,x,e)", r"(?<![\w.>])toU\((\w+)\)\s*=(?!=)\s*([^;]*);", r"SETU(self, \1, \2);", b)
         b = self.sub("view write Vec<dof>::updAs(&x[k]) = e -> SETAS(x,k,dof,e)", r"Vec<dof>::updAs\(&(\w+)\[([^\[\];]+)\]\)\s*=(?!=)\s*([^;]*);", r"SETAS(\1, \2, self.dof, \3);", b)
@@ -165,8 +177,9 @@ class DUnit(M.MUnit):
         c = cut_function(path, anchor, name, occurrence=occurrence)
         P = DPlumb()
         hdr = P.header(c.header)
+        refs = [r for r in M.ref_params(c.header) if re.search(r"HType\s*&\s*%s\b" % r, strip_comments(c.header))]
         def pre(body):
-            body = P.body(body)
+            body = P.body(body, refs)
             if extra_pre:
                 body = extra_pre(body)
             for m in members:
@@ -326,7 +339,17 @@ def build(ctx, want_invert=(1, 2, 3)):
     ns = B.ns
     ns["SpatialVec"] = ns["SpatialVecP"] = S.SpatialVec
     ns["SymMat_3_P"] = ns["SymMat33P"] = ns["SymMat_3_E"] = ns["SymMat33"] = S.symmat33
-    ns["HType"] = HMat
+    def htype(*a):
+        if len(a) == 1:
+            return HMat(int(a[0]))
+        assert len(a) == 2 and all(isinstance(r, HRow) for r in a), "HType constructor"
+        return HMat(len(a[0].e), [SpatialVec(w, v) for w, v in zip(a[0].e, a[1].e)])       # Mat<2,dof,Vec3>(row0, row1)
+    ns["HType"] = htype
+    def SETROW(Hm, i, e):
+        if isinstance(e, Vec) and not isinstance(e, HRow):
+            e = HRow([Vec(list(e.e)) for _ in range(Hm.dof)])       # Row<dof,Vec3> = Vec3: every element
+        Hm.setrow(int(i), e)
+    ns["SETROW"] = SETROW
     B.temps = {}                                  # the drivers' local temporaries (last call), by their C++ name: visible to the harness for lemma chains
     def _new(cls):
         def f(n, name):
@@ -529,6 +552,10 @@ def build(ctx, want_invert=(1, 2, 3)):
         def isUDotKnown(self, ic): return False                       # no prescribed motion (udotMethod == Motion::Free)
         def isUDotKnownToBeZero(self, ic): return False
         def isReversed(self): return self.reversed_
+        def getX_PF(self): return self.X_PF
+        def getX_MB(self): return self.X_MB
+        def getX_GP(self, pc): return self.X_GP
+        def getX_FM(self, pc): return self.X_FM
         def fromU(self, v): return Vec([v[self.uIndex + i] for i in range(self.dof)])
         def toU(self, v): return self.fromU(v)
         def fromB(self, a): return a[self.nodeNum]
@@ -584,6 +611,11 @@ def build(ctx, want_invert=(1, 2, 3)):
         spec(nm)
     B.add_method(DNode, RBNS_H, r"void realizeVelocity\(const SBStateDigest& sbs\) const override\s*", "realizeVelocity", members=NODE_MEMBERS, methods=NODE_METHODS,
                  cxxname="RigidBodyNodeSpec<dof>::realizeVelocity")
+    FR = ["noR_FM", "noX_MB", "noR_PF"]
+    FM = ["getX_PF", "getX_GP", "getX_MB", "getX_FM"]
+    for nm in ("calcParentToChildVelocityJacobianInGround", "calcParentToChildVelocityJacobianInGroundDot"):
+        B.add_method(DNode, RBNS_CPP, r"\b" + nm + r"\s*\([^{;]*?\)\s*const\s*", nm, members=NODE_MEMBERS + FR, methods=[x for x in NODE_METHODS if x != nm] + FM,
+                     cxxname="RigidBodyNodeSpec<dof,noR_FM,noX_MB,noR_PF>::" + nm, pyname="real_" + nm)
     def base(path, name, anchor):
         B.add_method(DNode, path, anchor, name, members=NODE_MEMBERS, methods=NODE_METHODS, cxxname="RigidBodyNode::" + name)
     base(RBN_CPP, "calcJointIndependentKinematicsVel", r"RigidBodyNode::calcJointIndependentKinematicsVel\([^{;]*?\)\s*const\s*")
@@ -779,10 +811,10 @@ class Tree:
     """Ground + serial chain of n bodies, every mobilizer with `dof` mobilities and a fully symbolic hinge matrix H (columns = arbitrary spatial
     vectors), symbolic spatial inertia Mk (mass, mass centre, unit inertia), symbolic parent-to-body shift (Phi), symbolic velocity-dependent
     terms unless realized from u by the real velocity recursion."""
-    def __init__(self, B, nb, dof=1, bias="symbolic"):
+    def __init__(self, B, nb, dof=1, bias="symbolic", shape="chain"):
         S.reset_env()
         C = B.cls
-        self.B, self.nb, self.dof = B, nb, dof
+        self.B, self.nb, self.dof, self.shape = B, nb, dof, shape
         tok = B.ns["ic"]
         self.tok = tok
         N, G0 = abstract_classes(B, dof)
@@ -792,7 +824,7 @@ class Tree:
             g._set(fld, 0)
         self.nodes = [g]
         for k in range(1, nb + 1):
-            n = N(k, (k - 1) * dof, self.nodes[-1], mass=D(R_("k%dm" % k)))
+            n = N(k, (k - 1) * dof, self.nodes[-1] if shape == "chain" else g, mass=D(R_("k%dm" % k)))
             n.setH(tok, sym_H("h%d_" % k, dof)); n.setPhi(tok, C["PhiMatrix"](v3("l%d_" % k))); n.setMk_G(tok, sym_Mk(B, "k%d" % k))
             if bias == "symbolic":
                 n.setMobilizerCoriolisAcceleration(tok, sv("a%d" % k)); n.setGyroscopicForce(tok, sv("b%d" % k))
@@ -800,7 +832,7 @@ class Tree:
                 n.setMobilizerCoriolisAcceleration(tok, 0); n.setGyroscopicForce(tok, 0)
             n.sym_HDot_FM = sym_H("hdfm%d_" % k, dof); n.sym_HDot = sym_H("hd%d_" % k, dof); n.setH_FM(tok, sym_H("hfm%d_" % k, dof))
             self.nodes.append(n)
-        self.matter = C["Matter"]([[x] for x in self.nodes])
+        self.matter = C["Matter"]([[x] for x in self.nodes] if shape == "chain" else [[g], self.nodes[1:]])      # fork: every body on Ground, one level
         self.nu = nb * dof
     def rvec(self, name): return RArr([R_("%s%d" % (name, k)) for k in range(self.nu)])
     def svec(self, name, ground_zero=False): return SVArr([sv("%s%d" % (name, k)) for k in range(self.nb + 1)])
@@ -823,18 +855,76 @@ class Tree:
         return out
 
 
-def prove(B, A, name, lhs, rhs, hyps, unit, fn, timeout_ms=30000, bounded=None):
-    """B.prove_eq under the abstraction A (None: none) with exactly the given hypotheses; -> True iff every element was discharged"""
+def _consts(e, acc):
+    todo, seen = [e], set()
+    while todo:
+        t = todo.pop()
+        if t.get_id() in seen:
+            continue
+        seen.add(t.get_id())
+        if z3.is_const(t) and t.decl().kind() == z3.Z3_OP_UNINTERPRETED:
+            acc[t.decl().name()] = t
+        else:
+            todo.extend(t.children())
+    return acc
+
+
+def refute_random(goal, hyps, tries=2, seed=12345):
+    """cheap refutation on a random instance: every variable except the left-hand sides of solvable hypotheses `v == e` and the reciprocal/inverse variables gets a
+    random small rational; a model of (instantiated hypotheses, not goal) is a genuine counterexample of the general goal. Proves nothing when it finds none."""
+    import random
+    rnd = random.Random(seed)
+    cs = {}
+    for e in [goal] + list(hyps):
+        _consts(e, cs)
+    keep = set(n for n in cs if n.startswith("recip_") or n.startswith("inv") or re.match(r"s_\d+$", n))       # reciprocals / inverse entries (free DI: s_k) stay symbolic
+    for h in hyps:
+        if z3.is_eq(h) and z3.is_const(h.arg(0)) and h.arg(0).decl().kind() == z3.Z3_OP_UNINTERPRETED:
+            keep.add(h.arg(0).decl().name())
+    for _ in range(tries):
+        sub = [(t, z3.RealVal("%d/%d" % (rnd.choice([-5, -4, -3, -2, -1, 1, 2, 3, 4, 5, 7]), rnd.choice([1, 2, 3])))) for n, t in sorted(cs.items()) if n not in keep]
+        s_ = z3.Solver(); s_.set("timeout", 5000)
+        for h in hyps:
+            s_.add(z3.simplify(z3.substitute(h, *sub)))
+        s_.add(z3.simplify(z3.Not(z3.substitute(goal, *sub))))
+        if s_.check() == z3.sat:
+            m = s_.model()
+            model = {t.decl().name(): str(v) for t, v in sub}
+            for d_ in m.decls():
+                model[d_.name()] = str(m[d_])
+            return model
+    return None
+
+
+def prove(B, A, name, lhs, rhs, hyps, unit, fn, timeout_ms=30000, bounded=None, refute_first=False):
+    """B.prove_eq under the abstraction A (None: none) with exactly the given hypotheses; -> True iff every element was discharged.
+    refute_first: try a random-instance refutation before the (possibly slow) proof attempt; a hit is recorded as a failed obligation with its counter-model."""
     n0 = len(B.ctx.obligations)
     if A is not None:
         lhs, rhs, hyps = A.map(lhs), A.map(rhs), [A(h) for h in hyps]
     if S.is_scalar(rhs) and not S.is_scalar(lhs):
         rhs = remap(lambda x: D(rhs), lhs)
-    rs = B.prove_eq(name, lhs, rhs, list(hyps), unit, fn, timeout_ms=timeout_ms, minimal=True)
+    ok = True
+    if refute_first:
+        for i, g in S.eq_all(lhs, rhs):
+            t0 = time.time()
+            cex = refute_random(g, list(hyps))
+            if cex is not None:
+                B.record("%s[%d]" % (name, i), unit, S.Result("failed", time.time() - t0, model=cex), fn, "identity %s (refuted on a random instance)" % name)
+                ok = False
+            else:
+                r = B.prove_eq(name, S.elements(lhs)[i], S.elements(rhs)[i], list(hyps), unit, fn, timeout_ms=timeout_ms, minimal=True)[0]
+                # prove_eq numbers a scalar goal [0]: keep the element index in the name
+                ob = B.ctx.obligations[-1]
+                ob.name = ob.name.replace("%s[0]" % name, "%s[%d]" % (name, i)) if i else ob.name
+                ok &= r.status == "discharged"
+    else:
+        rs = B.prove_eq(name, lhs, rhs, list(hyps), unit, fn, timeout_ms=timeout_ms, minimal=True)
+        ok = all(r.status == "discharged" for r in rs)
     if bounded:
         for ob in B.ctx.obligations[n0:]:
             ob.bounded = bounded
-    return all(r.status == "discharged" for r in rs)
+    return ok
 
 
 def eqs(lhs, rhs):
@@ -925,6 +1015,9 @@ def n_phi(B, l):
     return B.cls["PhiMatrix"](l)
 
 
+_GUARDED = set()
+
+
 def mod_inverse(B, A, name, lhs, rhs, Dm, DI, w, U, fn, bounded=None, timeout_ms=30000, hyps=()):
     """claim lhs == rhs given D*DI == 1 (DI free otherwise), in two steps: (i) the hypothesis-free identity lhs - rhs == (D*DI - 1)*w
     (z3 expands polynomials, no nonlinear hypotheses); (ii) the rewriting step r == (E - 1) w, E == 1 |- r == 0 on abstracted terms (E = D*DI == 1 is lemma N3b).
@@ -932,16 +1025,19 @@ def mod_inverse(B, A, name, lhs, rhs, Dm, DI, w, U, fn, bounded=None, timeout_ms
     dof = Dm.nr
     E = Dm * DI
     n0 = len(B.ctx.obligations)
-    ok = prove(B, A, name + " [identity: lhs - rhs == (D*DI - 1)*w, DI free]", lhs - rhs, (E - eye(dof)) * w, list(hyps), U, fn, timeout_ms=timeout_ms, bounded=bounded)
+    ok = prove(B, A, name + " [identity: lhs - rhs == (D*DI - 1)*w, DI free]", lhs - rhs, (E - eye(dof)) * w, list(hyps), U, fn, timeout_ms=timeout_ms, bounded=bounded, refute_first=True)
     if ok:
         r = Vec(*[R_("r_%d" % i) for i in range(dof)])
         Ev = Mat([[R_("E_%d%d" % (i, j)) for j in range(dof)] for i in range(dof)])
         wv = Vec(*[R_("w_%d" % i) for i in range(dof)])
         hyp = eqs(r, (Ev - eye(dof)) * wv) + eqs(Ev, eye(dof))
+        if (U, dof) not in _GUARDED:
+            _GUARDED.add((U, dof))
+            B.guard_sat("%s rewriting step (r == (E - 1) w, E == 1), dof %d" % (U, dof), hyp, U)
         return prove(B, None, name + " [from the identity and D*DI == 1]", r, Vec([0] * dof), hyp, U, fn, bounded=bounded)
     # the sufficient identity failed: it is only a proof device, so withdraw it and decide the claim itself
     del B.ctx.obligations[n0:]
-    return prove(B, A, name + " [direct, hypotheses D*DI == 1]", lhs, rhs, list(hyps) + eqs(E, eye(dof)), U, fn, timeout_ms=max(timeout_ms, 60000), bounded=bounded)
+    return prove(B, A, name + " [direct, hypotheses D*DI == 1]", lhs, rhs, list(hyps) + eqs(E, eye(dof)), U, fn, timeout_ms=min(timeout_ms, 8000), bounded=bounded, refute_first=True)
 
 
 def _arrays(sc, with_forces=True):
@@ -990,7 +1086,8 @@ def fd_lemmas(B, sc, abi, U, zero_bias=False):
     T = P * (A_GB - a) + z
     ok &= prove(B, A3, "%s3 P*(A_GB - a) + z == PPlus*shift(A_GP) + zPlus  (force across the joint as felt by the parent; induction invariant of the inward pass)" % tag,
                 T, PPlus * APlus + zPlus, [], U, fn)
-    ok &= mod_inverse(B, A3, "%s4 ~H*(P*(A_GB - a) + z) == f_mobility  (joint equation)" % tag, (~H) * T, f, Dm, DI, eps - (~H) * (P * APlus), U, fn)
+    # witness built from the code's own outputs (A_GB - a - H*udot is the shifted parent acceleration the code used): the joint equation is decided on its own merits
+    ok &= mod_inverse(B, A3, "%s4 ~H*(P*(A_GB - a) + z) == f_mobility  (joint equation)" % tag, (~H) * T, f, Dm, DI, eps - (~H) * (P * (A_GB - a - Hu)), U, fn)
     return dict(ok=ok, w=w)
 
 
@@ -1124,14 +1221,21 @@ def ke_textbook(m_, c_, Gv, wv, vv):
     return D(m_) * S.dot(list(vcm), list(vcm)) / 2 + D(m_) * S.dot(list(wv), list(Gc * wv)) / 2
 
 
-def tree_roundtrips(B, nb, U, mode):
+# ----------------------------------------------------------------------
+# (T) small-tree composition: the real passes in the real (transliterated) driver order; bounded in tree size
+# ----------------------------------------------------------------------
+BOUND = "tree size <= 2 (ground + 1 body; ground + 2-body chain; ground + 2 bodies both on Ground), 1 mobility per body"
+
+
+def tree_roundtrips(B, nb, U, mode, shape="chain"):
     """mode 'dyn': inverse(forward(f)) == 0 residual and forward(f + inverse(udot*)) == udot*;
        mode 'mass': multiplyByM(multiplyByMInv(v)) == v and multiplyByMInv(multiplyByM(x)) == x.
     nb == 1: direct. nb == 2: lemma chain = the induction step instantiated: (i) the tip node alone (parent motion abstracted), (ii) the base joint with the
     tip's outputs (P+, z+, F) abstracted and related by (i)."""
-    T = Tree(B, nb, 1, bias="symbolic" if mode == "dyn" else "zero")
+    T = Tree(B, nb, 1, bias="symbolic" if mode == "dyn" else "zero", shape=shape)
     tok = T.tok
     ok = True
+    fork = shape == "fork"
     bd = BOUND
     dyn = mode == "dyn"
     f = T.rvec("f")
@@ -1161,17 +1265,18 @@ def tree_roundtrips(B, nb, U, mode):
     B.guard_sat("%s 1/D exists for every joint" % U, defs, U)
     iv = inv(fw["udot"])
     goal = (lambda k: iv["r"][k]) if dyn else (lambda k: iv["r"][k] - f[k])
-    if nb == 1:
-        ok &= prove(B, None, "%s == 0, joint 1" % name1, goal(0), 0, defs, U, fnF, bounded=bd)
+    if nb == 1 or fork:
+        for k in range(nb):
+            ok &= prove(B, None, "%s == 0, joint %d%s" % (name1, k + 1, " (both bodies on Ground)" if fork else ""), goal(k), 0, defs, U, fnF, bounded=bd, refute_first=True)
     else:
-        ok &= prove(B, None, "%s == 0, joint 2 (tip)" % name1, goal(1), 0, defs, U, fnF, bounded=bd)
+        ok &= prove(B, None, "%s == 0, joint 2 (tip)" % name1, goal(1), 0, defs, U, fnF, bounded=bd, refute_first=True)
         # (i) tip: F_2 == PPlus_2*shift(A_1) + zPlus_2 for ANY base acceleration of the form H_1*udot_1 + a_1 (udot_1 abstracted)
         A = Abstraction()
         A.bind([fw["udot"][0]], "ud1")
         PP2, l2 = n2.getPPlus(tok), n2.getPhi(tok).l()
         A1 = iv["A"][1]
         shiftA1 = SpatialVec(A1[0], A1[1] + cross(A1[0], l2))
-        ok &= prove(B, A, "chain(i) tip: F_2 == PPlus_2*shift(A_1) + zPlus_2  (udot_1 free)", iv["F"][2], PP2 * shiftA1 + fw["zPlus"][2], [], U, fnF, bounded=bd)
+        ok &= prove(B, A, "chain(i) tip: F_2 == PPlus_2*shift(A_1) + zPlus_2  (udot_1 free)", iv["F"][2], PP2 * shiftA1 + fw["zPlus"][2], [], U, fnF, bounded=bd, refute_first=True)
         # (ii) base joint, tip outputs abstracted
         A = Abstraction()
         Fv = A.bind(iv["F"][2], "F2")
@@ -1191,35 +1296,36 @@ def tree_roundtrips(B, nb, U, mode):
     fw = fwd(fp)
     defs = recip_defs()
     assert len(defs) == nb
-    if nb == 1:
-        ok &= prove(B, None, "%s, joint 1" % name2, fw["udot"][0], xs[0], defs, U, fnF, bounded=bd)
+    if nb == 1 or fork:
+        for k in range(nb):
+            ok &= prove(B, None, "%s, joint %d%s" % (name2, k + 1, " (both bodies on Ground)" if fork else ""), fw["udot"][k], xs[k], defs, U, fnF, bounded=bd, refute_first=True)
     else:
         PP2, l2 = n2.getPPlus(tok), n2.getPhi(tok).l()
         shiftA1 = SpatialVec(A1s[0], A1s[1] + cross(A1s[0], l2))
         # (i) tip: F*_2 - zPlus_2 == PPlus_2*shift(A*_1) (needs 1/D_2)
-        ok &= prove(B, None, "chain(i) tip: F*_2 - zPlus_2 == PPlus_2*shift(A*_1)", F2s - fw["zPlus"][2], PP2 * shiftA1, [defs[0]], U, fnF, bounded=bd)
+        ok &= prove(B, None, "chain(i) tip: F*_2 - zPlus_2 == PPlus_2*shift(A*_1)", F2s - fw["zPlus"][2], PP2 * shiftA1, [defs[0]], U, fnF, bounded=bd, refute_first=True)
         # (ii) base joint with tip outputs abstracted
         A = Abstraction()
         Fv = A.bind(F2s, "F2")
         zv = A.bind(fw["zPlus"][2], "zp2")
         Pv = A.bind(PP2, "pp2")
-        hyp = eqs(Fv - zv, Pv * A.map(shiftA1)) + [A(defs[1])]
+        hyp = eqs(Fv, zv + Pv * A.map(shiftA1)) + [A(defs[1])]
         B.guard_sat("%s chain(ii) hypotheses, second round trip" % U, hyp, U)
-        ok1 = prove(B, A, "%s, joint 1 (base)  [tip outputs abstracted, related by chain(i)]" % name2, fw["udot"][0], xs[0], hyp, U, fnF, bounded=bd)
+        ok1 = prove(B, A, "%s, joint 1 (base)  [tip outputs abstracted, related by chain(i)]" % name2, fw["udot"][0], xs[0], hyp, U, fnF, bounded=bd, refute_first=True)
         ok &= ok1
         # (iii) tip joint with udot_1 replaced by udot*_1 (ii)
         A = Abstraction()
         A.rewrite([fw["udot"][0]], [D(xs[0].v if isinstance(xs[0], D) else xs[0])])
-        ok &= prove(B, A, "%s, joint 2 (tip)  [udot_1 == udot*_1 by the base-joint obligation]" % name2, fw["udot"][1], xs[1], [defs[0]], U, fnF, bounded=bd)
+        ok &= prove(B, A, "%s, joint 2 (tip)  [udot_1 == udot*_1 by the base-joint obligation]" % name2, fw["udot"][1], xs[1], [defs[0]], U, fnF, bounded=bd, refute_first=True)
     return ok
 
 
-def tree_mass(B, nb, U):
+def tree_mass(B, nb, U, shape="chain"):
     """mass-matrix operator facts on the small trees: symmetry, kinetic energy, composite-rigid-body closed form (hypothesis-free polynomial identities
     except where SpatialInertia += divides by the total mass)"""
     bd = BOUND
     ok = True
-    T = Tree(B, nb, 1, bias="none")
+    T = Tree(B, nb, 1, bias="none", shape=shape)
     tok = T.tok
     fnM = "SimbodyMatterSubsystemRep::multiplyByM"
     x, y = T.rvec("x"), T.rvec("y")
@@ -1242,6 +1348,11 @@ def tree_mass(B, nb, U):
     fnR = fnM + " + calcCompositeBodyInertias"
     e = lambda k: RArr([1 if i == k else 0 for i in range(nb)])
     cols = [T.mulM(e(k)) for k in range(nb)]               # column k of M (what calcM assembles)
+    if shape == "fork":
+        for k in range(1, nb + 1):
+            ok &= prove(B, None, "M[%d][%d] == ~H*(R*H), R = the body's own spatial inertia (both bodies on Ground)" % (k, k), cols[k - 1][k - 1], (~H[k]) * (Rr[k] * H[k]), [], U, fnR, bounded=bd)
+        ok &= prove(B, None, "M[1][2] == M[2][1] == 0 (both bodies on Ground)", Vec([cols[1][0], cols[0][1]]), Vec([0, 0]), [], U, fnR, bounded=bd)
+        return ok
     if defs:
         B.guard_sat("%s total mass != 0" % U, defs, U)
     if nb == 1:
@@ -1256,10 +1367,10 @@ def tree_mass(B, nb, U):
     return ok
 
 
-def tree_dyn_extra(B, nb, U):
+def tree_dyn_extra(B, nb, U, shape="chain"):
     """inverse dynamics == M*udot + C(q,u) - f_applied - ~J*F_applied with the real multiplyByM and multiplyBySystemJacobianTranspose (hypothesis-free)"""
     bd = BOUND
-    T = Tree(B, nb, 1, bias="symbolic")
+    T = Tree(B, nb, 1, bias="symbolic", shape=shape)
     tok = T.tok
     f, Fb, ud = T.rvec("f"), T.svec("Fb"), T.rvec("ud")
     zf, zF, zu = RArr([0] * nb), SVArr([zero_sv() for _ in range(nb + 1)]), RArr([0] * nb)
@@ -1273,11 +1384,11 @@ def tree_dyn_extra(B, nb, U):
                  Vec(list(full)), Vec([Mu[k] + C0[k] - f[k] - JtF[k] for k in range(nb)]), [], U, fn, bounded=bd)
 
 
-def tree_psd(B, nb, U):
+def tree_psd(B, nb, U, shape="chain"):
     """M positive semidefinite for physically valid bodies: (a) ~u M u == sum_k m_k (|v_cm,k|^2 + w_k.Gc_k w_k) with V_k from the real velocity recursion
     (Gc = unit central inertia by the parallel-axis theorem); (b) on abstracted terms: m_k >= 0, Gc_k quadratic form >= 0 |- the sum >= 0"""
     bd = BOUND
-    T = Tree(B, nb, 1, bias="none")
+    T = Tree(B, nb, 1, bias="none", shape=shape)
     tok = T.tok
     u = T.rvec("u")
     T.matter.u = u
@@ -1301,3 +1412,56 @@ def tree_psd(B, nb, U):
     for ob in B.ctx.obligations[n0:]:
         ob.bounded = bd
     return ok and r.status == "discharged"
+
+
+def hpbg_lemmas(B, dof, U):
+    """calcParentToChildVelocityJacobianInGround[Dot] for the 8 frame specialisations <noR_FM, noX_MB, noR_PF> of RigidBodyNodeSpec: each specialised branch equals the
+    general relation V_PB_G = R_GF (w_FM, v_FM + w_FM x (R_FM r_MB)) under what its flag promises (noR_FM: R_FM = 1 and no angular part in H_FM; noX_MB: X_MB = identity,
+    so r_MB = 0; noR_PF: R_PF = 1), and HDot is the exact time derivative of H (dual numbers; d/dt R_GF = [w_GF]x R_GF, d/dt R_FM = [w_FM]x R_FM)."""
+    C = B.cls
+    tok = B.ns["ic"]
+    ok = True
+    import itertools
+    for noR_FM, noX_MB, noR_PF in itertools.product((False, True), repeat=3):
+        S.reset_env()
+        N, G0 = abstract_classes(B, dof)
+        tag = "<noR_FM=%s,noX_MB=%s,noR_PF=%s>" % tuple("true" if x else "false" for x in (noR_FM, noX_MB, noR_PF))
+        R_GP, R_PF, R_FM = S.mat_sym("Rgp", 3, 3), (eye(3) if noR_PF else S.mat_sym("Rpf", 3, 3)), (eye(3) if noR_FM else S.mat_sym("Rfm", 3, 3))
+        r_MB = Vec(0, 0, 0) if noX_MB else v3("rmb")
+        H_FM, HD_FM = sym_H("hfm", dof), sym_H("hdfm", dof)
+        if noR_FM:
+            for c in H_FM.cols + HD_FM.cols:
+                c[0] = Vec(0, 0, 0)
+        u = [R_("u%d" % i) for i in range(dof)]
+        V_GP = sv("Vp")
+        w_GF = V_GP[0]
+        w_FM = (H_FM * u)[0]
+        def mk(dual):
+            par = N(0, 0, None)
+            par.setV_GB(tok, V_GP)
+            n = N(1, 0, par)
+            n.noR_FM, n.noX_MB, n.noR_PF = noR_FM, noX_MB, noR_PF
+            if dual:
+                Rgp = Mat([[D(val(R_GP.m[i][j]), val((crossMat(w_GF) * R_GP).m[i][j])) for j in range(3)] for i in range(3)])
+                Rfm = R_FM if noR_FM else Mat([[D(val(R_FM.m[i][j]), val((crossMat(w_FM) * R_FM).m[i][j])) for j in range(3)] for i in range(3)])
+                Hfm = HMat(dof, [dual_sv(a, b) for a, b in zip(H_FM.cols, HD_FM.cols)])
+            else:
+                Rgp, Rfm, Hfm = R_GP, R_FM, H_FM
+            n.X_GP, n.X_PF, n.X_MB, n.X_FM = S.Transform(Rgp, v3("pgp")), S.Transform(R_PF, v3("ppf")), S.Transform(eye(3), r_MB), S.Transform(Rfm, v3("pfm"))
+            n.setH_FM(tok, Hfm); n.setHDot_FM(tok, HD_FM); n.setV_FM(tok, H_FM * u)
+            Hout = HMat(dof)
+            n.real_calcParentToChildVelocityJacobianInGround(tok, tok, Hout)
+            n.setH(tok, Hout)
+            return n
+        n0, n1 = mk(False), mk(True)
+        H = n0.getH(tok)
+        fn = SPEC + "calcParentToChildVelocityJacobianInGround"
+        R_GF = R_GP * R_PF
+        V = H_FM * u
+        r_F = R_FM * r_MB
+        ok &= prove(B, None, "H%s: H_PB_G*u == R_GF*(w_FM, v_FM + w_FM x (R_FM*r_MB)) for (w_FM,v_FM) = H_FM*u" % tag, H * u, SpatialVec(R_GF * V[0], R_GF * (V[1] + cross(V[0], r_F))), [], U, fn)
+        HD = HMat(dof)
+        n0.real_calcParentToChildVelocityJacobianInGroundDot(tok, tok, tok, HD)
+        ok &= prove(B, None, "HDot%s: HDot_PB_G == d/dt H_PB_G  (d/dt R_GF = [w_GP]x R_GF, d/dt R_FM = [w_FM]x R_FM, d/dt H_FM = HDot_FM)" % tag,
+                    Vec([D(val(x)) for x in HD.flat()]), Vec([D(der(x)) for x in n1.getH(tok).flat()]), [], U, fn + "Dot")
+    return ok
